@@ -48,6 +48,31 @@ Proof.
     + pose proof (find_none _ _ F _ Hx) as N0. cbn beta in N0. rewrite G in N0. discriminate.
 Qed.
 
+(* ---- permission changes over time *)
+Lemma run_store_app h1 : forall s h2, run_store s (h1 ++ h2) = run_store s h1 ++ run_store (store_after s h1) h2.
+Proof.
+  induction h1 as [|o h1 IH]; intros s h2; cbn; [reflexivity|].
+  destruct o as [u ps|f u tk]; cbn; rewrite IH; reflexivity.
+Qed.
+
+Lemma granted_now s u tk p : granted (cred_now s u tk) p = memN p (perms_of s u).
+Proof.
+  unfold granted, cred_now; cbn. destruct tk; [|reflexivity].
+  destruct (perms_of s u); reflexivity.
+Qed.
+
+Lemma revoked_not_invoked s0 h f u tk ps p :
+  lightweight f = false -> perms f = Some ps -> In p ps ->
+  memN p (perms_of (store_after s0 h) u) = false ->
+  memN ROOT (perms_of (store_after s0 h) u) = false ->
+  exists r, run_store s0 (h ++ [Request f u tk]) = run_store s0 h ++ [r] /\ r <> Invoked.
+Proof.
+  intros L E Hp G R. rewrite run_store_app. cbn [run_store]. eexists. split; [reflexivity|].
+  apply rejected_not_invoked; [exact L|]. right. exists ps, p. repeat split; try assumption.
+  - cbn. rewrite R. apply andb_false_r.
+  - rewrite granted_now. exact G.
+Qed.
+
 (* ---- builder *)
 Lemma build_snoc cs c : build (cs ++ [c]) = apply1 (build cs) c.
 Proof. unfold build. rewrite fold_left_app. reflexivity. Qed.
